@@ -310,6 +310,10 @@ func (n *Net) Listen(addr string) *Listener {
 
 // Dial connects to a listener; from is the client's source address.
 func (n *Net) Dial(ctx context.Context, from, addr string) (*Conn, error) {
+	// a fully qualified host name ("mx.example.") is the same host
+	if h, p, err := net.SplitHostPort(addr); err == nil && len(h) > 1 && h[len(h)-1] == '.' {
+		addr = net.JoinHostPort(h[:len(h)-1], p)
+	}
 	simrt.Point("net:dial", addr)
 	if n.OnDial != nil {
 		n.OnDial(addr)
